@@ -405,6 +405,13 @@ def owners(repo: Repo, fi: FunctionInfo, depth: int = 0) -> set[str]:
         _CALLERS_CACHE.clear()
         _CALLERS_CACHE[key] = idx
     out: set[str] = set()
+    # (a helper the loader pasted into its callers is no longer called by name there)
+    for caller_q, helper_q in getattr(repo, "inlined_helpers", []):
+        if helper_q == root.qualname and caller_q in repo.functions:
+            gr = repo.functions[caller_q]
+            while gr.parent is not None:
+                gr = gr.parent
+            out |= owners(repo, gr, depth + 1) if gr.qualname not in base else {caller_q}
     for g in _CALLERS_CACHE[key].get(root.name, []):
         if g is root or g.qualname == root.qualname:
             continue
